@@ -393,22 +393,29 @@ static bool prescan11(const std::string& in, const std::string& enc, std::string
     if (u16) { if (in.size() >= 2 && (unsigned char)in[0] == 0xFF && (unsigned char)in[1] == 0xFE) start = 2; for (size_t i = start; i + 1 < in.size(); i += 2) u.push_back((unsigned char)in[i] | ((unsigned char)in[i + 1] << 8)); }
     else for (size_t i = 0; i < in.size(); ++i) u.push_back((unsigned char)in[i]);
     std::vector<unsigned> o;
-    const bool utf8 = enc == "UTF-8", latin1 = enc == "ISO-8859-1";
+    const bool utf8 = enc == "UTF-8", latin1 = enc == "ISO-8859-1", gb = enc == "GB18030";
     for (size_t i = 0; i < u.size(); ++i)
     {
         unsigned c = u[i];
         if (c0ctl(c) || c == 0x7F) { why = "XML 1.1: literal restricted character"; return false; }
         if ((u16 || latin1) && restricted11(c)) { why = "XML 1.1: literal restricted character"; return false; }
         if (utf8 && c == 0xC2 && i + 1 < u.size() && u[i + 1] >= 0x80 && u[i + 1] <= 0x9F && u[i + 1] != 0x85) { why = "XML 1.1: literal restricted character"; return false; }
+        // GB18030: U+0080..U+00A3 are the four-byte sequences 81 30 81 30 ... in order; U+2028 is 81 36 A6 35
+        unsigned gbcp = 0;
+        if (gb && c == 0x81 && i + 3 < u.size() && u[i + 1] == 0x30 && u[i + 2] >= 0x81 && u[i + 2] <= 0x84 && u[i + 3] >= 0x30 && u[i + 3] <= 0x39)
+            gbcp = 0x80 + (u[i + 2] - 0x81) * 10 + (u[i + 3] - 0x30);
+        if (gb && c == 0x81 && i + 3 < u.size() && u[i + 1] == 0x36 && u[i + 2] == 0xA6 && u[i + 3] == 0x35) gbcp = 0x2028;
+        if (gbcp >= 0x80 && gbcp <= 0x9F && gbcp != 0x85) { why = "XML 1.1: literal restricted character"; return false; }
         // line ends
         bool nel = false; size_t adv = 0;
         if ((u16 || latin1) && c == 0x85) { nel = true; adv = 0; }
         else if (u16 && c == 0x2028) { nel = true; adv = 0; }
         else if (utf8 && c == 0xC2 && i + 1 < u.size() && u[i + 1] == 0x85) { nel = true; adv = 1; }
         else if (utf8 && c == 0xE2 && i + 2 < u.size() && u[i + 1] == 0x80 && u[i + 2] == 0xA8) { nel = true; adv = 2; }
+        else if (gbcp == 0x85 || gbcp == 0x2028) { nel = true; adv = 3; }
         if (nel)
         {
-            const bool isNel = !((u16 && c == 0x2028) || (utf8 && c == 0xE2));
+            const bool isNel = !((u16 && c == 0x2028) || (utf8 && c == 0xE2) || gbcp == 0x2028);
             if (isNel && !o.empty() && o.back() == 0xD) o.pop_back();   // CR NEL -> LF
             o.push_back(0xA); i += adv; continue;
         }
